@@ -498,6 +498,129 @@ pub fn exec_line(sess: &mut Session, line: &str) -> String {
             let cp = cp_by_name(toks[1]).unwrap();
             hex_of_bytes(&cp.encode(&str_of_hex(toks[2]).unwrap()))
         }
+        "@summary_raw" => {
+            // the raw bytes of the summary stream on the medium right now (cfb only)
+            let m = match &sess.medium {
+                Some(m) => m.clone(),
+                None => return "no-package".to_string(),
+            };
+            match crate::session::raw_streams(&m.snapshot_bytes()) {
+                Ok(list) => match list.iter().find(|(n, _)| n == "\u{5}SummaryInformation") {
+                    Some((_, d)) => hex_of_bytes(d),
+                    None => "missing".to_string(),
+                },
+                Err(e) => format!("raw-err {}", crate::session::kind_name(&e)),
+            }
+        }
+        "@rows_limit" => {
+            // batches of fresh rows into one table: result of each insert, the row count the
+            // API reports, the count after reopening, then delete some rows and refill
+            let batches: Vec<usize> = toks[1..].iter().map(|t| t.parse().unwrap()).collect();
+            let medium = crate::session::Medium::new(Vec::new());
+            let mut pkg = msi::Package::create(msi::PackageType::Installer, medium.clone()).unwrap();
+            pkg.create_table("R", vec![msi::Column::build("K").primary_key().int32()]).unwrap();
+            let mut out: Vec<String> = vec![];
+            let mut next: i32 = -40000;
+            let mut accepted: usize = 0;
+            let count = |pkg: &mut crate::session::Pkg| -> String {
+                match pkg.select_rows(msi::Select::table("R")) {
+                    Ok(rows) => rows.len().to_string(),
+                    Err(e) => format!("ERR:{}", crate::session::kind_name(&e)),
+                }
+            };
+            for b in &batches {
+                let rows: Vec<Vec<msi::Value>> = (0..*b).map(|i| vec![msi::Value::Int(next + i as i32)]).collect();
+                next += *b as i32;
+                match pkg.insert_rows(msi::Insert::into("R").rows(rows)) {
+                    Ok(()) => {
+                        accepted += b;
+                        out.push("ok".into());
+                    }
+                    Err(e) => out.push(format!("err:{}", crate::session::kind_name(&e))),
+                }
+            }
+            out.push(format!("accepted={accepted} count={}", count(&mut pkg)));
+            match pkg.into_inner() {
+                Ok(m) => match msi::Package::open(crate::session::Medium::new(m.snapshot_bytes())) {
+                    Ok(mut p2) => {
+                        out.push(format!("reopen-count={}", count(&mut p2)));
+                        // free capacity and refill up to the limit again
+                        let r = p2.delete_rows(msi::Delete::from("R").with(msi::Expr::col("K").lt(msi::Expr::integer(-39990))));
+                        out.push(format!("delete:{}", if r.is_ok() { "ok" } else { "err" }));
+                        let rows: Vec<Vec<msi::Value>> = (0..10).map(|i| vec![msi::Value::Int(100000 + i)]).collect();
+                        let r = p2.insert_rows(msi::Insert::into("R").rows(rows));
+                        out.push(format!("refill:{}", if r.is_ok() { "ok" } else { "err" }));
+                        out.push(format!("count={}", count(&mut p2)));
+                    }
+                    Err(e) => out.push(format!("reopen-err:{}", crate::session::kind_name(&e))),
+                },
+                Err(e) => out.push(format!("close-err:{}", crate::session::kind_name(&e))),
+            }
+            out.join(" ")
+        }
+        "@pool_limit" => {
+            // a foreign database whose string pool holds `n` entries (two-byte references),
+            // then inserts of fresh strings until past the capacity
+            let n: usize = toks[1].parse().unwrap();
+            use crate::decode::*;
+            let mut k = ColDef::new("K", CT::I16);
+            k.key = true;
+            let mut v = ColDef::new("V", CT::Str(0));
+            v.nullable = true;
+            let tables = vec![EncTable { name: "T".into(), cols: vec![k, v], rows: vec![] }];
+            let mut layout = EncLayout {
+                long_refs: false, cp_id: 65001, filler: vec![], overcount: 0, duplicate: false,
+                with_validation: false, reverse_rows: false, int16_size: 2,
+            };
+            let base = decode(&encode_db(&layout, &tables)).unwrap().pool.len();
+            layout.filler = (0..n.saturating_sub(base)).map(|i| (format!("f{i}"), 1u16)).collect();
+            let mut entries = encode_db(&layout, &tables);
+            // a minimal summary stream: written by the library for a fresh package
+            let fresh = msi::Package::create(msi::PackageType::Installer, std::io::Cursor::new(Vec::new())).unwrap();
+            let bytes = fresh.into_inner().unwrap().into_inner();
+            let sum = crate::session::raw_streams(&bytes).unwrap().into_iter().find(|(n, _)| n.starts_with('\u{5}')).unwrap();
+            entries.push(sum);
+            let file = crate::session::build_container(Some(0), &entries).unwrap();
+            let medium = crate::session::Medium::new(file);
+            let mut out: Vec<String> = vec![];
+            match msi::Package::open(medium.clone()) {
+                Err(e) => out.push(format!("open-err {}", crate::session::kind_name(&e))),
+                Ok(mut pkg) => {
+                    out.push("open".into());
+                    for i in 0..3 {
+                        let q = msi::Insert::into("T").row(vec![msi::Value::Int(i + 1), msi::Value::Str(format!("fresh{i}"))]);
+                        let r = catch_unwind(AssertUnwindSafe(|| pkg.insert_rows(q)));
+                        match r {
+                            Ok(Ok(())) => out.push("ok".into()),
+                            Ok(Err(e)) => out.push(format!("err:{}", crate::session::kind_name(&e))),
+                            Err(_) => {
+                                out.push("panic".into());
+                                break;
+                            }
+                        }
+                    }
+                    let r = catch_unwind(AssertUnwindSafe(|| pkg.flush()));
+                    match r {
+                        Ok(Ok(())) => {
+                            std::mem::forget(pkg);
+                            match msi::Package::open(crate::session::Medium::new(medium.snapshot_bytes())) {
+                                Ok(mut p2) => match p2.select_rows(msi::Select::table("T")) {
+                                    Ok(rows) => out.push(format!("reopen-rows={}", rows.len())),
+                                    Err(e) => out.push(format!("reopen-select-err:{}", crate::session::kind_name(&e))),
+                                },
+                                Err(e) => out.push(format!("reopen-err:{}", crate::session::kind_name(&e))),
+                            }
+                        }
+                        Ok(Err(e)) => {
+                            out.push(format!("flush-err:{}", crate::session::kind_name(&e)));
+                            std::mem::forget(pkg);
+                        }
+                        Err(_) => out.push("flush-panic".into()),
+                    }
+                }
+            }
+            out.join(" ")
+        }
         "@cp_sweep" => {
             // complete enumeration of all scalar values for one code page, in-process
             let name = toks[1];
